@@ -9,7 +9,7 @@ one() {
   prop=$(python3 -c "import json;print(json.load(open('$d/meta.json'))['property'])" 2>/dev/null | cut -c1-3)
   [ -z "$prop" ] && { echo "$id ?? no meta"; return; }
   want=1; case "$id" in *_e[0-9]*|*_eq[0-9]*|*_q[0-9]*) want=0;; esac
-  out=$(tools/try_mutant_wt.sh $PWD/$d/patch.diff $prop 2>&1 | head -1)
+  out=$(tools/try_mutant_wt.sh $PWD/$d/patch.diff $prop 2>&1 | head -2 | tr "\n" " ")
   rc=$(echo "$out" | sed -n 's/.* rc=\([0-9]*\).*/\1/p')
   if [ "$rc" = "$want" ]; then echo "$id $prop ok(rc=$rc)"; else echo "$id $prop UNEXPECTED want=$want got: $out" | cut -c1-300; fi
 }
